@@ -27,6 +27,8 @@ def run(ctx, repo, tier):
     voro.dispatch_model(ctx, repo, "C03")
     voro.getter_forwarding(ctx, repo, "C03")
     voro.value_snapping(ctx, repo, "C03")
+    voro.one_construction(ctx, repo, "C03")
+    voro.pair_source(ctx, repo, "C03")
     voro.volumes_exact_3d(ctx, repo, "C03")
     voro.vertex_reindexing(ctx, repo, "C03")
     ctx.require_instances("MIRROR", 9, "emission obligations")
